@@ -217,14 +217,10 @@ theorem step_enc (t : Gen.GTW Rune) (ht : ∀ r ∈ t.buf, ValidScalar r) (op : 
     · refine ⟨?_, hop⟩
       simp only [TW.step, Gen.GTW.step, encTW, encOp, Bool.false_eq_true, if_false, encodeRunes_isEmpty]
       cases buf <;> rfl
-    · constructor
-      · simp only [TW.step, Gen.GTW.step, encTW, encOp, if_true, List.map_nil]
-        rw [trimLeftSpace_encode b hop, encodeRunes_append]; rfl
-      · intro r hr
-        simp only [Gen.GTW.step, if_true, List.mem_append] at hr
-        rcases hr with hr | hr
-        · exact ht r hr
-        · exact scalar_dropWhile hop _ r hr
+    · refine ⟨?_, scalar_dropWhile hop _⟩
+      simp only [TW.step, Gen.GTW.step, encTW, encOp, if_true, encodeRunes_isEmpty]
+      rw [trimLeftSpace_encode b hop]
+      cases buf <;> rfl
   | trimLeft =>
     refine ⟨?_, by simp [Gen.GTW.step]⟩
     simp only [TW.step, Gen.GTW.step, encTW, encOp, List.map_cons, List.map_nil]
@@ -473,3 +469,49 @@ theorem encodeRunes_sublist {a b : List Rune} (h : a.Sublist b) : (encodeRunes a
   | cons_cons x _ ih =>
     rw [encodeRunes_cons', encodeRunes_cons']
     exact (List.Sublist.refl _).append ih
+
+/-! ## byte-level facts about consecutive writes (no validity needed) -/
+
+theorem tw_flatten_flushCalls (b : Bytes) : (if b.isEmpty then [] else [b] : List Bytes).flatten = b := by
+  cases b <;> simp
+
+theorem tw_runOps_append (pre rest : List WOp) :
+    runOps (pre ++ rest) =
+      (TW.run {} pre).2.flatten ++ (TW.run (TW.run {} pre).1 (rest ++ [.flush])).2.flatten := by
+  unfold runOps
+  simp only [List.append_assoc]
+  rw [tw_run_append]
+  simp
+
+theorem tw_run_cons_flatten (t : TW) (op : WOp) (ops : List WOp) :
+    (TW.run t (op :: ops)).2.flatten = (t.step op).2.flatten ++ (TW.run (t.step op).1 ops).2.flatten := by
+  simp [TW.run]
+
+/-- the bytes of `ops` followed by the final flush, from state `t` -/
+def twOutFrom (t : TW) (ops : List WOp) : Bytes := (TW.run t (ops ++ [.flush])).2.flatten
+
+theorem twOutFrom_nil (t : TW) : twOutFrom t [] = t.buf := by
+  simp only [twOutFrom, List.nil_append, TW.run, TW.step, List.append_nil, tw_flatten_flushCalls]
+
+theorem twOutFrom_write (t : TW) (b : Bytes) (ops : List WOp) :
+    twOutFrom t (.write b :: ops) =
+      t.buf ++ twOutFrom { buf := if t.trim then trimLeftSpace b else b, trim := false } ops := by
+  simp only [twOutFrom, List.cons_append, tw_run_cons_flatten, TW.step, tw_flatten_flushCalls]
+
+theorem twOutFrom_trimLeft (t : TW) (ops : List WOp) :
+    twOutFrom t (.trimLeft :: ops) = trimRightSpace t.buf ++ twOutFrom { t with buf := [] } ops := by
+  simp [twOutFrom, tw_run_cons_flatten, TW.step]
+
+theorem twOutFrom_trimRight (t : TW) (ops : List WOp) :
+    twOutFrom t (.trimRight :: ops) = twOutFrom { t with trim := true } ops := by
+  simp [twOutFrom, tw_run_cons_flatten, TW.step]
+
+theorem twOutFrom_flush (t : TW) (ops : List WOp) :
+    twOutFrom t (.flush :: ops) = t.buf ++ twOutFrom { t with buf := [] } ops := by
+  simp only [twOutFrom, List.cons_append, tw_run_cons_flatten, TW.step, tw_flatten_flushCalls]
+
+theorem runOps_eq_twOutFrom (ops : List WOp) : runOps ops = twOutFrom {} ops := rfl
+
+theorem runOps_append (pre rest : List WOp) :
+    runOps (pre ++ rest) = (TW.run {} pre).2.flatten ++ twOutFrom (TW.run {} pre).1 rest :=
+  tw_runOps_append pre rest
